@@ -62,6 +62,71 @@ def render(template, holes):
     return "".join(out), spans
 
 
+def value_round_trip(P, rep, rule):
+    import itertools
+    from ..absint import ADict
+    ps = P.func("middlewares.parsestack", "default_parse_stack")
+    us = P.func("middlewares.parsestack", "default_unparse_stack")
+    alphabet = ["{", "}", '"', "a", "1", " ", "#"]
+    L = 4 if rep.tier == "thorough" else 3
+    values = ["".join(t) for n in range(0, L + 1) for t in itertools.product(alphabet, repeat=n)]
+    values += ["s1", "{s1}", '"s1"', "s1 # s1", "S1", "1990", "{A {B} c}", '"a {"} b"', "{a} # {b}"]
+    bad = {}
+    n = 0
+    chunk = 60
+    for ci in range(0, len(values), chunk):
+        vals = values[ci:ci + chunk]
+
+        def one(ctx, vals=vals):
+            it = driver_interp(P, ctx, "middlewares.parsestack")
+            mk = lambda c, *a, **k: new_obj(it, P, "model", c, *a, **k)
+            fields = [mk("Field", key=f"f{i}", value=v, start_line=i) for i, v in enumerate(vals)]
+            e = mk("Entry", entry_type="a", key="k", fields=AList(fields), start_line=0, raw="r")
+            st = mk("String", key="s1", value='"resolved text"', start_line=0, raw="r")
+            lib = new_obj(it, P, "library", "Library")
+            call(it, lib, "add", AList([st, e]))
+            try:
+                def apply(stack, l):
+                    for m in it.iterate(stack):
+                        l = call(it, m, "transform", l)
+                    return l
+                def vals_of(l):
+                    en = it.iterate(it.get_attr(l, "entries"))[0]
+                    return [it.get_attr(f, "value") for f in it.iterate(it.get_attr(en, "fields"))], it.get_attr(it.iterate(it.get_attr(l, "strings"))[0], "value")
+                l1 = apply(call_func(it, ps), lib)
+                u, su = vals_of(l1)
+                l2 = apply(call_func(it, us), l1)
+                w, sw = vals_of(l2)
+                u_again, _ = vals_of(l1)
+                l3 = apply(call_func(it, ps), l2)
+                u2, su2 = vals_of(l3)
+                return ("ok", u, w, u2, u_again, (su, sw, su2))
+            except Raised as r:
+                return ("raise", r)
+            except (Unsupported, LoopBound) as ex_:
+                raise AnalysisError(f"{rule}: analyser cannot follow the default stacks: {ex_}")
+        for ctx, res in explore(one, 50):
+            if res[0] == "raise":
+                bad.setdefault("raises", f"the default stacks raise {res[1].cls_name()} on values {vals[:5]}...")
+                continue
+            _, u, w, u2, u_again, (su, sw, su2) = res
+            for v, a, b, c, d in zip(vals, u, w, u2, u_again):
+                n += 1
+                if d != a:
+                    bad.setdefault("write-mutates", f"writing changes the parsed library: value {a!r} became {d!r}")
+                if b != "{" + str(a) + "}":
+                    bad.setdefault("written-form", f"value {v!r}: parsed as {a!r}, written as {b!r} instead of {'{' + str(a) + '}'!r}")
+                elif c != a:
+                    bad.setdefault("reparsed-value", f"value {v!r}: parsed as {a!r}, written as {b!r}, parsed again as {c!r}")
+            if (su, sw, su2) != ("resolved text", "{resolved text}", "resolved text"):
+                bad.setdefault("string-value", f"@string value round trip: {su!r} -> {sw!r} -> {su2!r}")
+    rep.count("value_round_trips", n)
+    for k, msg in sorted(bad.items()):
+        rep.fail(rule, f"value-round-trip:{k}", ps.loc, msg)
+    if not bad:
+        rep.ok(rule, f"value-round-trip:{n}-values", ps.loc)
+
+
 def run(P: Program, rep: Report):
     rep.not_decided += ["equality of values after a round trip for concrete documents", "the byte-for-byte fixpoint",
                         "values whose text contains unbalanced braces or block starts", "non-whitespace indent / separators"]
@@ -194,16 +259,28 @@ def run(P: Program, rep: Report):
     enc = P.module("middlewares.enclosing")
     strip_f = P.func("middlewares.enclosing", "RemoveEnclosingMiddleware._strip_enclosing")
     encl_f = P.func("middlewares.enclosing", "AddEnclosingMiddleware._enclose")
-    tags_out = set()
-    for n_ in own_nodes(strip_f.node):
-        if isinstance(n_, ast.Return) and isinstance(n_.value, ast.Tuple) and len(n_.value.elts) == 2 and isinstance(n_.value.elts[1], ast.Constant):
-            tags_out.add(n_.value.elts[1].value)
-    tags_in = set()
-    for n_ in own_nodes(encl_f.node):
-        if isinstance(n_, ast.Compare) and isinstance(n_.left, ast.Name) and n_.left.id == "enclosing" and isinstance(n_.comparators[0], ast.Constant):
-            tags_in.add(n_.comparators[0].value)
-    rep.check(bool(tags_out) and tags_out <= tags_in, "C05.R2", "enclosing-tags", enc.relpath,
-              f"RemoveEnclosing records tags {sorted(tags_out)} but AddEnclosing handles {sorted(tags_in)}")
+    # tags RemoveEnclosing can record (observed on representatives of every enclosing kind) must be accepted by AddEnclosing
+    acls_ = P.cls("middlewares.enclosing", "AddEnclosingMiddleware")
+
+    def tags(ctx):
+        it = driver_interp(P, ctx, "middlewares.enclosing")
+        out = []
+        try:
+            for v in ("{a}", '"a"', "a", "12", ""):
+                r = call_func(it, strip_f, v)
+                tag = r[1] if isinstance(r, tuple) and len(r) == 2 else None
+                mw = it.construct(acls_, [], {"reuse_previous_enclosing": True, "enclose_integers": True, "default_enclosing": "{"})
+                back = call(it, mw, "_enclose", r[0] if isinstance(r, tuple) else r, tag, apply_int_rule=False)
+                out.append((v, tag, back))
+            return out
+        except Raised as r_:
+            return f"raises {r_.cls_name()} ({r_.exc!r})"
+        except (Unsupported, LoopBound) as u:
+            raise AnalysisError(f"C05.R2: analyser cannot follow the enclosing functions: {u}")
+    for ctx, v in explore(tags, 20):
+        ok = isinstance(v, list) and all(back == src.strip() for (src, tag, back) in v)
+        rep.check(ok, "C05.R2", "enclosing-tags", enc.relpath,
+                  f"the enclosing RemoveEnclosing records is not one AddEnclosing(reuse) restores: {v!r}")
     for fname, want in (("default_parse_stack", ["ResolveStringReferencesMiddleware", "RemoveEnclosingMiddleware"]), ("default_unparse_stack", ["AddEnclosingMiddleware"])):
         f = P.func("middlewares.parsestack", fname)
         def one(ctx, f=f):
@@ -226,6 +303,12 @@ def run(P: Program, rep: Report):
     from .c10 import strip_table
     strip_table(P, rep, "C05.R4")
 
+    rep.rule("C05.R5", "value round trip through the default stacks: for every class string v a field or @string can hold after "
+                       "splitting (braced, quoted, bare, numbers, concatenations, nested / unbalanced delimiters up to length 4) the "
+                       "first parse gives u, the write stack gives exactly {u}, and parsing that again gives u (so the second write "
+                       "repeats the first)")
+    value_round_trip(P, rep, "C05.R5")
+
     rep.rule("C05.R3", "writer determinism: the writer and its serialisers read only their arguments and module constants (no "
                        "global / nonlocal state, no clock, randomness, environment or I/O), so writing equal libraries gives equal text")
     wmod = P.module("writer")
@@ -240,6 +323,8 @@ def run(P: Program, rep: Report):
                 if any(nm.startswith(p) for p in ("time.", "random.", "datetime.", "os.", "uuid.", "open", "input")):
                     rep.fail("C05.R3", f"impure-call:{f.name}:{nm}", f"{wmod.relpath}:{n_.lineno}", f"writer function {f.name} calls {nm}")
     for name, expr in wmod.assigns.items():
-        rep.check(isinstance(expr, ast.Constant), "C05.R3", f"module-constant:{name}", wmod.relpath, f"writer module global {name} is not a constant")
+        impure = [ast.unparse(c.func) for c in ast.walk(expr) if isinstance(c, ast.Call)
+                  and any(ast.unparse(c.func).startswith(p_) for p_ in ("time.", "random.", "datetime.", "os.", "uuid.", "open", "input"))]
+        rep.check(not impure, "C05.R3", f"module-constant:{name}", wmod.relpath, f"writer module global {name} is computed from {impure}")
     rep.require_count("C05.R3", "writer functions scanned", nfun, 20)
     rep.ok("C05.R3", "writer:pure", wmod.relpath, f"{nfun} functions scanned")
